@@ -24,6 +24,7 @@ import numpy as np
 
 VERIF_DIR = os.path.dirname(os.path.dirname(os.path.abspath(__file__)))
 REPO_DIR = os.environ.get("VERIF_REPO", "/repo")
+OUT_DIR = os.environ.get("VERIF_OUT") or VERIF_DIR      # evidence/ and replays/ go here (scratch dir for mutant runs)
 
 PROPS = ["C01", "C02", "C03", "C04", "C05", "C06", "C07", "C08", "C09", "C10", "C11", "C12", "C13", "C15", "C16", "C20"]
 
@@ -276,7 +277,7 @@ def minimise(mod, spec, target_cls, target_site, budget_s=20.0, timeout=60.0):
 
 
 def write_replay(pid, res, tier, verif_seed, minimised, min_steps):
-    d = os.path.join(VERIF_DIR, "replays")
+    d = os.path.join(OUT_DIR, "replays")
     os.makedirs(d, exist_ok=True)
     path = os.path.join(d, "%s-seed%d-run%d.json" % (pid, verif_seed, res["idx"] if res["idx"] is not None else -1))
     with open(path, "w") as f:
@@ -384,7 +385,7 @@ def summarise(pid, tier, verif_seed, results, stopped_early, wall, mod, extra=No
 
 
 def write_evidence(pid, tier, verif_seed, coverage, wall, violations, assumptions):
-    d = os.path.join(VERIF_DIR, "evidence")
+    d = os.path.join(OUT_DIR, "evidence")
     os.makedirs(d, exist_ok=True)
     ev = {"property_id": pid, "tier": tier, "seed": int(verif_seed), "level": "exploration", "coverage": coverage,
           "assumptions": assumptions, "wall_s": round(wall, 2), "violations": int(violations)}
